@@ -194,7 +194,7 @@ class Request:
         base = '{}://{}{}/'.format(
             self.scheme,
             self.host,
-            f':{self.port:d}' if self.port not in (80, 443) else '',
+            f':{self.port:d}' if self.port not in (80, 443, None) else '',
         )
 
         self.base = parse_url(base)
